@@ -337,10 +337,26 @@ def q_shell(c, A, ctx):
 
 def q_dimers(c, A, ctx):
     unique, per_mol = c.symmetry_unique_dimers(radius=min(A["r"], 3.8))
+    # incl. the read-only API of the Dimer objects handed out (their molecules
+    # are the crystal's own memoised ones)
     return [
-        [[d.a, d.b, float(d.separation)] for d in unique],
+        [[d.a, d.b, float(d.separation), d.separations, d.transform_string(), repr(d), d.supermolecule()]
+         for d in unique],
         [[[int(i), float(d.separation)] for i, d in row] for row in per_mol],
-    ]
+        [[d.a, d.b] for d in unique[:2]],
+    ]  # fmt: skip
+
+
+def q_wulff(c, A, ctx):
+    # classes of the library that are built *from* a crystal
+    from chmpy.crystal.wulff import WulffConstruction
+    from chmpy.fmt.gmf import GMF
+
+    hkl = np.array([[1, 0, 0], [0, 1, 0], [0, 0, 1], [1, 1, 0], [1, 0, 1], [0, 1, 1], [1, 1, 1], [2, 1, 0]])
+    energies = np.array([0.9, 1.0, 1.1, 1.3, 1.25, 1.4, 1.5, 1.7])
+    w = WulffConstruction.from_gmf_and_crystal(GMF(hkl=hkl, cuts=np.zeros(len(hkl)), energies=energies), c)
+    return {"normals": w.facet_normals, "energies": w.facet_energies, "vertices": w.wulff_vertices,
+            "facets": [list(map(int, f)) for f in w.wulff_facets], "repr": repr(w)}
 
 
 def q_reflections(c, A, ctx):
@@ -516,6 +532,7 @@ SLOW_QUERIES = {
     "scene": (q_scene, "C"),
     "nn_info": (q_nn_info, "C"),
     "mol_sd": (q_mol_sd, "C"),
+    "wulff": (q_wulff, "N"),
     "atomic_sd": (q_atomic_sd, "C"),
     "group_sd": (q_group_sd, "C"),
     "fgroup": (q_fgroup, "C"),
@@ -560,13 +577,18 @@ def m_flip3(c, A, ctx):
     _flip(c, 3)
 
 
+def m_flip1001(c, A, ctx):
+    # a long life: a thousand and one effective state changes on one object
+    _flip(c, 1001)
+
+
 def m_normH_tol(c, A, ctx):
     # the state-changing operation with its own, non-default argument
     c.normalize_hydrogen_bondlengths(bond_tolerance=0.9)
 
 
 MUTATORS = {"toH": m_toH, "toR": m_toR, "normH": m_normH, "toX": m_toX, "flip2": m_flip2, "flip3": m_flip3,
-            "normH_tol": m_normH_tol}
+            "normH_tol": m_normH_tol, "flip1001": m_flip1001}
 
 
 # ------------------------------------------------ operations meant to raise
